@@ -302,7 +302,14 @@ func familySubsetter() fw.Family {
 				code[id] = c
 				// idempotent: asking again for any id seen so far changes nothing
 				before := append([]uint16(nil), sub.List()...)
-				for id2, c2 := range code {
+				var known []uint16 // in a fixed order: the first failure reported must not depend on map iteration
+				for _, id2 := range subsetIDs {
+					if _, ok := code[id2]; ok {
+						known = append(known, id2)
+					}
+				}
+				for _, id2 := range known {
+					c2 := code[id2]
 					if got := sub.Get(id2); got != c2 {
 						fail("subsetter-stable", "after call %d: Get(%d) = %d, it was %d", n+1, id2, got, c2)
 						return
@@ -315,7 +322,8 @@ func familySubsetter() fw.Family {
 				}
 				// injective, .notdef at zero, Get and List agree
 				inv := map[uint16]uint16{}
-				for id2, c2 := range code {
+				for _, id2 := range known {
+					c2 := code[id2]
 					if other, dup := inv[c2]; dup {
 						fail("subsetter-injective", "after call %d: ids %d and %d share code %d", n+1, other, id2, c2)
 						return
